@@ -162,6 +162,20 @@ let () = serve (fun fn req ->
             | _ -> raise (Model_error "bad media state"))) in
     of_option (fun (k, ((w, h), d)) -> JArr [of_n k; of_n w; of_n h; of_n d])
       (media_step old (jo "kind") (jo "w") (jo "h") (jo "d"))
+  | "fee_address" -> of_option of_bytes (fee_address (jbytes (jfield req "b")))
+  | "fee_address_bytes" ->
+    (match fee_address_bytes (jbytes (jfield req "t")) with
+     | Ok b -> JObj [("ok", of_bytes b)]
+     | Err _ -> JStr "err")
+  | "sig_run" ->
+    (* ops: ["sign", hash, sig] | ["clear"]; result: state + bytes around the payload *)
+    let ops = SL.map (fun o -> match jlist o with
+        | [k; h; sg] when jstr k = "sign" -> OpSign (jbytes h, jbytes sg)
+        | [k] when jstr k = "clear" -> OpClear
+        | _ -> raise (Model_error "bad sig op")) (jlist (jfield req "ops")) in
+    let st = sig_run ops in
+    JObj [("signature", of_option of_bytes st.st_signature); ("hash", of_option of_bytes st.st_channel_hash);
+          ("bytes", of_option of_bytes (sig_to_bytes st (jbytes (jfield req "payload"))))]
   | "hexlify" -> of_bytes (hexlify (jbytes (jfield req "b")))
   | "unhexlify" -> of_option of_bytes (unhexlify (jbytes (jfield req "s")))
   | "claim_id_of_hash" -> of_bytes (claim_id_of_hash (jbytes (jfield req "h")))
